@@ -6,11 +6,37 @@
 use vstd::prelude::*;
 verus! {
 //@ default-tags C18
-// ---- opaque request / response types (only their identity matters for this unit)
-pub mod get_info { pub struct Response { pub opaque: u64 } }
-pub mod make_credential { pub struct Request { pub opaque: u64 } pub struct Response { pub opaque: u64 } }
-pub mod get_assertion { pub struct Request { pub opaque: u64 } pub struct Response { pub opaque: u64 } }
-pub struct StatusCode { pub opaque: u8 }
+// ---- request / response types: only their identity matters for the property, but a changed forwarding body may look
+//      at the options or build a status code, so those parts are the real items (the rest of each message stays opaque)
+//@ source terr passkey-types/src/ctap2/error.rs
+//@ source tgi passkey-types/src/ctap2/get_info.rs
+//@ source tmc passkey-types/src/ctap2/make_credential.rs
+//@ repr_enum terr Ctap2Error
+//@ repr_enum terr U2FError
+//@ extract terr struct UnknownSpecError
+//@ extract terr struct ExtensionError
+//@ extract terr struct VendorError
+//@ extract terr enum Ctap2Code
+//@ extract terr enum StatusCode
+impl vstd::std_specs::convert::FromSpecImpl<Ctap2Error> for Ctap2Code {
+    open spec fn obeys_from_spec() -> bool { true }
+    open spec fn from_spec(e: Ctap2Error) -> Ctap2Code { Ctap2Code::Known(e) }
+}
+//@ extract terr impl From<Ctap2Error> for Ctap2Code
+impl vstd::std_specs::convert::FromSpecImpl<Ctap2Error> for StatusCode {
+    open spec fn obeys_from_spec() -> bool { true }
+    open spec fn from_spec(e: Ctap2Error) -> StatusCode { StatusCode::Ctap2(Ctap2Code::Known(e)) }
+}
+//@ extract terr impl From<Ctap2Error> for StatusCode
+pub mod get_info { use vstd::prelude::*;
+    //@ extract tgi struct Options
+    //@ extract tgi impl Default for Options
+    pub struct Response { pub options: Option<Options>, pub opaque: u64 } }
+pub mod make_credential { use vstd::prelude::*;
+    //@ extract tmc struct Options
+    //@ extract tmc impl Default for Options
+    pub struct Request { pub options: Options, pub opaque: u64 } pub struct Response { pub opaque: u64 } }
+pub mod get_assertion { pub use super::make_credential::Options; pub struct Request { pub options: Options, pub opaque: u64 } pub struct Response { pub opaque: u64 } }
 pub struct Aaguid { pub opaque: u64 }
 pub mod iana { pub struct Algorithm { pub opaque: i64 } }
 pub mod webauthn { pub struct AuthenticatorTransport { pub opaque: u8 } }
